@@ -1,3 +1,234 @@
-import StirVerif.C12.Model
+/-
+C12 — "Bin coordinates, lines of response and detector positions agree".
+Property theorems over the model of `Model.lean`.  All of them hold for every (even) number of detectors, every number
+of rings / segments / views / tangential positions / TOF bins and every (rational or real) sampling distance — no bounds.
+What is *not* a theorem (floating-point evaluation of the trigonometric coordinates, the LOR representation changes of
+LORCoordinates.inl in floating point, detector coordinates of blocks/generic scanners) is covered by the correspondence
+run of checks/c12.py only.
+-/
+import StirVerif.C12.ProofsTrans
+import StirVerif.C12.ProofsChord
+import StirVerif.C12.ProofsAxial
+import StirVerif.C12.ProofsTof
+import StirVerif.C12.ProofsArc
+import StirVerif.C12.ProofsOverlap
+
 namespace StirVerif.C12
+open Real
+
+/-! ## detectors of a bin: interleaving in angle units, and the chord they span -/
+
+/-- "the azimuthal angle matches to within half a view step, exactly for even tangential positions": in units of `π/N`
+    (detector `d` sits at angle `2d`) the two detectors of bin `(v, tp)` satisfy
+    `d1 + d2 ≡ 2v + N/2 - (tp mod 2)` and `d1 - d2 ≡ tp - N/2 (mod N)` -/
+theorem C12_interleaving_angle_units (m v tp : Int) (hm : 0 < m) (hv : 0 ≤ v ∧ v < m) (ht : -m < tp ∧ tp ≤ m) :
+    ((viewTangToDet (2 * m) v tp).1 + (viewTangToDet (2 * m) v tp).2 - (2 * v + m - tp % 2)) % (2 * m) = 0 ∧
+    ((viewTangToDet (2 * m) v tp).1 - (viewTangToDet (2 * m) v tp).2 - (tp - m)) % (2 * m) = 0 :=
+  interleaving_mod m v tp hm hv ht
+
+/-- the same with the multiples of `N` explicit (`d1 = v + ⌊tp/2⌋`, `d2 = v - ⌈tp/2⌉ + N/2` up to multiples of `N`) -/
+theorem C12_detectors_explicit (m v tp : Int) (hm : 0 < m) (hv : 0 ≤ v ∧ v < m) (ht : -m < tp ∧ tp ≤ m) :
+    ∃ k1 k2 : Int, (viewTangToDet (2 * m) v tp).1 = v + tp / 2 + 2 * m * k1 ∧
+      (viewTangToDet (2 * m) v tp).2 = v - (tp + 1) / 2 + m + 2 * m * k2 :=
+  viewTangToDet_explicit m v tp hm hv ht
+
+/-- "the bin's physical coordinates agree with the straight line through the physical positions of its detectors:
+    tangential offset … match … and the azimuthal angle matches to within half a view step, exactly for even tangential
+    positions": both detectors of bin `(v, tp)` (ring of radius `R`, `N = 2m` detectors, any intrinsic tilt) lie on the line
+    `{x cos φ + y sin φ = s}` with `s = R sin(tp·π/N)` (`get_s`) and `φ = v·2π/N + tilt - (tp mod 2)·π/N`
+    (`get_phi` for even `tp`, half a view step less for odd `tp`). -/
+theorem C12_chord_through_detectors (R tilt : ℝ) (m v tp : ℤ) (hm : 0 < m) (hv : 0 ≤ v ∧ v < m) (ht : -m < tp ∧ tp ≤ m) :
+    let N : ℤ := 2 * m
+    let φ : ℝ := 2 * π / (N : ℝ) * (v : ℝ) + tilt - ((tp % 2 : ℤ) : ℝ) * (π / (N : ℝ))
+    let s : ℝ := R * sin ((tp : ℝ) * (π / (N : ℝ)))
+    ringX R (detPsi tilt N (viewTangToDet N v tp).1) * cos φ + ringY R (detPsi tilt N (viewTangToDet N v tp).1) * sin φ = s ∧
+    ringX R (detPsi tilt N (viewTangToDet N v tp).2) * cos φ + ringY R (detPsi tilt N (viewTangToDet N v tp).2) * sin φ = s :=
+  chord_through_detectors R tilt m v tp hm hv ht
+
+/-- "negating the tangential position negates the offset" (non-arc-corrected data) -/
+theorem C12_s_noarc_antisymmetric (R : ℝ) (N tp : ℤ) :
+    R * sin (((-tp : ℤ) : ℝ) * (π / (N : ℝ))) = -(R * sin ((tp : ℝ) * (π / (N : ℝ)))) :=
+  s_noarc_antisym R N tp
+
+/-- "coordinates are … monotone in the indices": the tangential offset of non-arc-corrected data is strictly increasing
+    over the whole admissible range `-N/2 ≤ tp ≤ N/2` -/
+theorem C12_s_noarc_monotone (R : ℝ) (hR : 0 < R) (m tp tp' : ℤ) (hm : 0 < m) (h0 : -m ≤ tp) (h1 : tp < tp') (h2 : tp' ≤ m) :
+    R * sin ((tp : ℝ) * (π / ((2 * m : ℤ) : ℝ))) < R * sin ((tp' : ℝ) * (π / ((2 * m : ℤ) : ℝ))) :=
+  s_noarc_strictMono R hR m tp tp' hm h0 h1 h2
+
+/-- "for detector-based geometries it returns a bin … at most one step away in view … and tangential position (stepping
+    between the last and the first view reverses the signs …)": integer side of `get_bin ∘ get_LOR` for non-arc-corrected
+    data.  The end points of the LOR sit at the detector coordinates `v + tp/2`, `v - tp/2 + N/2`: on detectors for even
+    `tp`, half-way between two detectors for odd `tp`, where the floating-point rounding may go either way (`e1,e2 ∈ {0,1}`;
+    this — `|ψ_float - ψ| < π/(2N)` — is the stated assumption about the float evaluation).
+    `StepClose`: same flag and `|Δview| ≤ 1`, `|Δtp| ≤ 1`, or detectors exchanged (segment and TOF bin change sign),
+    view `N/2-1 ↔ 0` and `|tp' + tp| ≤ 1`. -/
+theorem C12_nearest_detector_roundtrip (m v tp e1 e2 : Int) (hm : 0 < m) (hv : 0 ≤ v ∧ v < m) (ht : -m < tp ∧ tp < m)
+    (he1 : e1 = 0 ∨ e1 = 1) (he2 : e2 = 0 ∨ e2 = 1) (hodd : tp % 2 = 1 ∨ (e1 = 0 ∧ e2 = 0))
+    (hne : moduloInt ((viewTangToDet (2 * m) v tp).1 + e1) (2 * m) ≠ moduloInt ((viewTangToDet (2 * m) v tp).2 + e2) (2 * m)) :
+    StepClose m v tp (detToViewTang (2 * m) (moduloInt ((viewTangToDet (2 * m) v tp).1 + e1) (2 * m))
+      (moduloInt ((viewTangToDet (2 * m) v tp).2 + e2) (2 * m))) :=
+  nearest_detector_roundtrip m v tp e1 e2 hm hv ht he1 he2 hodd hne
+
+/-- the excluded case is real: at the extreme tangential position `tp = N/2 - 1` (N = 8, view 0) rounding one end point
+    up makes both end points the same detector — the source then reads a table entry it never initialised
+    (harness: KNOWN-CANDIDATE `roundtrip:coincident-nearest-detectors-at-extreme-tangential-position`) -/
+theorem C12_coincident_detectors_witness :
+    moduloInt ((viewTangToDet 8 0 3).1 + 1) 8 = moduloInt ((viewTangToDet 8 0 3).2 + 0) 8 := by decide
+
+/-! ## axial coordinate and obliqueness -/
+
+/-- "coordinates are antisymmetric … in the indices": `get_m` is antisymmetric about the scanner centre -/
+theorem C12_m_antisymmetric (spacing : Rat) (s : Seg) (a : Int) :
+    s.getM spacing (s.numAx - 1 - a) = -s.getM spacing a :=
+  Seg.getM_antisym spacing s a
+
+/-- … and strictly increasing with the axial position, by the axial sampling -/
+theorem C12_m_monotone (spacing : Rat) (h : 0 < spacing) (s : Seg) (a : Int) :
+    s.getM spacing (a + 1) = s.getM spacing a + s.axialSampling spacing ∧ 0 < s.axialSampling spacing :=
+  ⟨Seg.getM_succ spacing s a, Seg.axialSampling_pos spacing h s⟩
+
+/-- "axial midpoint … match": `get_m` of a bin is the mean of the two ring positions of **every** ring pair that
+    contributes to it (for uncompressed data: of its ring pair) -/
+theorem C12_m_is_ring_midpoint (spacing : Rat) (R : Int) (s : Seg) (off a r1 r2 : Int)
+    (hoff : s.axOff R = some off) (h : (r1, r2) ∈ s.ringPairsOf R off a) :
+    s.getM spacing a = (ringZ spacing R r1 + ringZ spacing R r2) / 2 :=
+  Seg.getM_eq_midpoint spacing R s off a r1 r2 hoff h
+
+/-- "… (averaged over the contributing pairs for compressed data)" -/
+theorem C12_m_is_average_over_ring_pairs (spacing : Rat) (R : Int) (s : Seg) (off a : Int)
+    (hoff : s.axOff R = some off) (hne : s.ringPairsOf R off a ≠ []) :
+    avgMCompressed spacing R s off a = s.getM spacing a :=
+  avgMCompressed_eq_getM spacing R s off a hoff hne
+
+/-- every contributing ring difference lies in the segment's range (the nominal obliqueness uses the middle of that range;
+    the harness checks the exact average for bins whose list is not cut at the axial edge) -/
+theorem C12_ring_differences_in_segment (R : Int) (s : Seg) (off a r1 r2 : Int) (h : (r1, r2) ∈ s.ringPairsOf R off a) :
+    s.minRD ≤ r2 - r1 ∧ r2 - r1 ≤ s.maxRD :=
+  ringPairs_rd_range R s off a r1 r2 h
+
+/-- "opposite segments have opposite obliqueness": in the table of `ProjDataInfoCTI`, segment `-k` is the mirror image of
+    segment `k`: opposite average ring difference (`get_tantheta` is that times `ring_spacing / (2 sqrt(R² - s²))`),
+    same axial coordinates -/
+theorem C12_opposite_segments (span maxDelta R minSeg : Int) (segs : List Seg)
+    (h : ctiSegments span maxDelta R = some (minSeg, segs)) (k : Int) (hk : 0 < k) :
+    segAt minSeg segs (-k) = (segAt minSeg segs k).map Seg.mirror ∧
+      (∀ s : Seg, s.mirror.avgRD = -s.avgRD) ∧ (∀ (sp : Rat) (s : Seg) (a : Int), s.mirror.getM sp a = s.getM sp a) :=
+  ⟨cti_opposite_segments span maxDelta R minSeg segs h k hk, Seg.mirror_avgRD, Seg.mirror_getM⟩
+
+/-! ## TOF -/
+
+/-- "opposite TOF bins opposite distances", boundaries contiguous (`high(t) = low(t+1)`) and symmetric, distances increasing -/
+theorem C12_tof_table (n : Int) (inc : Rat) (hinc : 0 < inc) (hodd : n.tmod 2 ≠ 0) (t : Int) :
+    getK n inc (-t) = -getK n inc t ∧ tofHigh n inc t = tofLow n inc (t + 1) ∧
+      tofLow n inc (-t) = -tofHigh n inc t ∧ tofHigh n inc (-t) = -tofLow n inc t ∧
+      tofLow n inc t < tofHigh n inc t ∧ getK n inc t < getK n inc (t + 1) :=
+  ⟨getK_neg n inc t hodd, tof_contiguous n inc t hodd, (tof_symmetric n inc t hodd).1, (tof_symmetric n inc t hodd).2,
+    tof_low_lt_high n inc hinc hodd t, getK_strictMono n inc hinc hodd t (t + 1) (by omega)⟩
+
+/-- what `set_tof_mash_factor` builds: an odd number `maxNum / mash` of bins, symmetric about 0, of width `mash·size·c/2` -/
+theorem C12_tof_mash (maxNum : Int) (size : Rat) (mash : Int) (T : TofTable) (h : setTofMash maxNum size mash = some T)
+    (hpos : 0 < T.numBins) :
+    T.numBins.tmod 2 ≠ 0 ∧ T.numBins = maxNum.tdiv mash ∧ T.minPos = -T.maxPos ∧ T.inc = ((mash : Rat) * size) * cHalf :=
+  ⟨(setTofMash_spec maxNum size mash T h).1, (setTofMash_spec maxNum size mash T h).2.1,
+    setTofMash_symmetric_range maxNum size mash T h hpos, (setTofMash_spec maxNum size mash T h).2.2.2.2.1⟩
+
+/-- "… returns a bin in the same … TOF bin": the time difference of a bin (and any time difference inside it) is assigned
+    to that bin by `get_tof_bin` -/
+theorem C12_tof_bin_found (T : TofTable) (hinc : 0 < T.inc) (hodd : T.numBins.tmod 2 ≠ 0) (t : Int)
+    (ht : T.minPos ≤ t ∧ t ≤ T.maxPos) :
+    T.getTofBin (T.k t / cHalf) = t ∧
+      ∀ delta, T.lowPs t ≤ delta → delta < T.highPs t → T.getTofBin delta = t :=
+  ⟨getTofBin_centre T hinc hodd t ht, fun delta h1 h2 => getTofBin_of_mem T hinc hodd t ht delta h1 h2⟩
+
+/-- seen while reading (not reachable from the LOR of a bin, so not a violation of C12): a time difference beyond the last
+    bin is assigned to the FIRST bin (with a warning) instead of being reported as out of range -/
+theorem C12_tof_beyond_last_goes_to_first (T : TofTable) (hinc : 0 < T.inc) (hodd : T.numBins.tmod 2 ≠ 0) (delta : Rat)
+    (h : T.highPs T.maxPos ≤ delta) : T.getTofBin delta = T.minPos :=
+  getTofBin_beyond_last T hinc hodd delta h
+
+/-! ## arc-corrected data -/
+
+/-- "for every bin, converting its reported line of response back to a bin returns the same bin for arc-corrected data"
+    — in exact arithmetic, for every well-formed geometry (any azimuthal offset: both the plain and the flipped
+    representation of the LOR, the latter undone by the view-wrap rule of `get_bin`) and every bin with TOF position 0 -/
+theorem C12_arccorr_roundtrip (g : ArcGeom) (w : g.WF) (b : Bin) (sg : Seg) (r : g.InRange b sg) (l : LorS)
+    (hl : g.lorOf b = some l) : g.getBin l = some b :=
+  arccorr_roundtrip g w b sg r l hl
+
+/-- "arc-corrected data have uniform tangential sampling" (and `get_s` is antisymmetric and increasing) -/
+theorem C12_arccorr_uniform_sampling (binSize : Rat) (h : 0 < binSize) (tp tp' : Int) (hlt : tp < tp') :
+    sArc binSize (tp + 1) - sArc binSize tp = binSize ∧ samplingS (sArc binSize) tp = binSize ∧
+      sArc binSize (-tp) = -sArc binSize tp ∧ sArc binSize tp < sArc binSize tp' :=
+  ⟨(sArc_uniform binSize h tp).1, (sArc_uniform binSize h tp).2, sArc_antisym binSize tp, sArc_strictMono binSize h tp tp' hlt⟩
+
+/-! ## non-vacuity -/
+
+/-- a geometry satisfying the hypotheses of `C12_arccorr_roundtrip`: span 3, 5 rings (the table built by `ProjDataInfoCTI`),
+    negative azimuthal offset (-π/12, as for the ECAT 953) so that the LOR of view 0 is stored in the flipped representation -/
+def exGeom : ArcGeom :=
+  { V := 8, binSize := 2, spacing := 4, offset := -(1 : Rat) / 12, minTang := -7, maxTang := 7, minSeg := -1,
+    segs := [⟨-4, -2, 5⟩, ⟨-1, 1, 9⟩, ⟨2, 4, 5⟩] }
+
+example : ctiSegments 3 4 5 = some (exGeom.minSeg, exGeom.segs) := by decide
+
+theorem C12_ex_segments (s : Int) (sg : Seg) (h : exGeom.seg? s = some sg) :
+    (s = -1 ∧ sg = ⟨-4, -2, 5⟩) ∨ (s = 0 ∧ sg = ⟨-1, 1, 9⟩) ∨ (s = 1 ∧ sg = ⟨2, 4, 5⟩) := by
+  have hr := exGeom.seg?_range s sg h
+  have : exGeom.minSeg = -1 := rfl
+  have : exGeom.maxSeg = 1 := by decide
+  have hs : s = -1 ∨ s = 0 ∨ s = 1 := by omega
+  rcases hs with rfl | rfl | rfl
+  · left; refine ⟨rfl, ?_⟩
+    have : exGeom.seg? (-1) = some ⟨-4, -2, 5⟩ := by decide
+    rw [this] at h; injection h with h; exact h.symm
+  · right; left; refine ⟨rfl, ?_⟩
+    have : exGeom.seg? 0 = some ⟨-1, 1, 9⟩ := by decide
+    rw [this] at h; injection h with h; exact h.symm
+  · right; right; refine ⟨rfl, ?_⟩
+    have : exGeom.seg? 1 = some ⟨2, 4, 5⟩ := by decide
+    rw [this] at h; injection h with h; exact h.symm
+
+theorem C12_ex_wellformed : exGeom.WF where
+  hV := by decide
+  hbin := by unfold exGeom; norm_num
+  hsp := by unfold exGeom; norm_num
+  hmin := by decide
+  hmax := by decide
+  hzero := by
+    intro sg h
+    rcases C12_ex_segments 0 sg h with ⟨h0, _⟩ | ⟨_, rfl⟩ | ⟨h0, _⟩
+    · omega
+    · decide
+    · omega
+  hne := by
+    intro s sg h
+    rcases C12_ex_segments s sg h with ⟨_, rfl⟩ | ⟨_, rfl⟩ | ⟨_, rfl⟩ <;> decide
+  hord := by
+    intro s s' a b ha hb hlt
+    rcases C12_ex_segments s a ha with ⟨rfl, rfl⟩ | ⟨rfl, rfl⟩ | ⟨rfl, rfl⟩ <;>
+    rcases C12_ex_segments s' b hb with ⟨rfl, rfl⟩ | ⟨rfl, rfl⟩ | ⟨rfl, rfl⟩ <;>
+    first | (exfalso; omega) | decide
+
+/-- … and a bin of it; hence its LOR is converted back to it -/
+example : ∀ l, exGeom.lorOf ⟨1, 0, 2, -3, 0⟩ = some l → exGeom.getBin l = some ⟨1, 0, 2, -3, 0⟩ :=
+  fun l hl => C12_arccorr_roundtrip exGeom C12_ex_wellformed ⟨1, 0, 2, -3, 0⟩ ⟨2, 4, 5⟩
+    { hseg := by decide, hv := by decide, ha := by decide, ht := by decide, htof := rfl } l hl
+
+/-- interleaving / chord / round-trip hypotheses are satisfiable: 16 detectors, odd tangential position; rounding both end
+    points up gives the next view -/
+example : (0 : Int) < 8 ∧ (0 ≤ (3 : Int) ∧ (3 : Int) < 8) ∧ (-8 < (-5 : Int) ∧ (-5 : Int) ≤ 8) ∧ viewTangToDet 16 3 (-5) = (0, 13) ∧
+    detToViewTang 16 (moduloInt (0 + 1) 16) (moduloInt (13 + 1) 16) = (4, -5, true) := by decide
+
+/-- TOF: 13 unmashed bins: mashing 3 gives 4 bins and is rejected (even), mashing 1 gives -6 … 6 -/
+example : setTofMash 13 312 3 = none ∧ (setTofMash 13 312 1).map (fun T => (T.minPos, T.maxPos, T.numBins)) = some (-6, 6, 13) := by
+  unfold setTofMash; decide
+
+/-- axial: span 3 on 5 rings, segment +1 (ring differences 2…4): axial position 2 collects the ring pairs (1,3) and (0,4),
+    sits at the scanner centre and has average ring difference 3 = (2+4)/2 -/
+example : (⟨2, 4, 5⟩ : Seg).axOff 5 = some 2 ∧ (⟨2, 4, 5⟩ : Seg).ringPairsOf 5 2 2 = [(1, 3), (0, 4)] := by decide
+
+example : (⟨2, 4, 5⟩ : Seg).getM 4 2 = 0 ∧ (⟨2, 4, 5⟩ : Seg).avgRD = 3 := by
+  norm_num [Seg.getM, Seg.axialSampling, Seg.mOffset, Seg.inc, Seg.avgRD]
+
 end StirVerif.C12
